@@ -5,6 +5,7 @@ CONSTANTS
   MaxNest = 2
   MaxSteps = 10
   Endings = {"plain"}
+  Starts = TRUE
   Portals = TRUE
 INVARIANT TreeShape
 INVARIANT AexitHasKids
